@@ -332,6 +332,11 @@ Definition rpp_res_coh (f : list N) (r : rp_result) : Prop :=
   (rp_after r, rp_len (rp_after r)) = rp_apply_log (f, rp_len f) (rev (rp_events r)).
 Lemma rpp_rev_wm_rev : forall (A : Type) (l : list A), rev (wm_rev l) = l.
 Proof. intros. unfold wm_rev. rewrite <- rev_alt. apply rev_involutive. Qed.
+Lemma rpp_coh_w0 : forall f c, rp_file (rp_io_ c) = f -> rp_flen (rp_io_ c) = rp_len f -> rpp_coh f (rp_w0 c).
+Proof.
+  intros f c H1 H2. unfold rpp_coh. change (rp_w_io (rp_w0 c)) with (rp_io_ c). change (rp_log (rp_w0 c)) with (@nil wm_entry).
+  rewrite H1, H2. split; reflexivity.
+Qed.
 Lemma rpp_res_coh_of : forall f w rc did e, rpp_coh f w -> rpp_res_coh f (rp_res_end rc w did e).
 Proof.
   intros f w rc did e (H1 & H2). unfold rpp_res_coh, rp_res_end. cbn [rp_after rp_events].
@@ -340,7 +345,7 @@ Qed.
 Lemma rpp_exit_coh : forall f w rc, rpp_coh f w -> rpp_res_coh f (rp_exit summ1 summN w rc).
 Proof.
   intros f w rc H. unfold rp_exit, rp_res. apply rpp_res_coh_of.
-  eapply rpp_wpres_with_raw. eapply rpp_fold_left_pres; [| exact H]. intros; apply rpp_exit_fsr_pres.
+  eapply (rpp_wpres_with_raw _ _). eapply rpp_fold_left_pres; [| exact H]. intros; apply rpp_exit_fsr_pres.
 Qed.
 Lemma rpp_finish_coh : forall f w did e, rpp_coh f w -> rpp_res_coh f (rp_finish w did e).
 Proof.
@@ -349,6 +354,8 @@ Proof.
   apply rpp_res_coh_of. eapply rpp_wpres_c; [exact F | exact H].
 Qed.
 
+Lemma rpp_set_io_log : forall w s, rp_log (rp_w_set_io w s) = rp_log w.
+Proof. reflexivity. Qed.
 (* rp_repair_end = the state change rp_end_state, then reads only *)
 Lemma rpp_repair_end_eq : forall w9,
   let w10 := rp_end_state w9 in
@@ -361,12 +368,14 @@ Proof.
   change (rp_offset (rp_r (rp_w_io (rp_end_seek w9)))) with (rp_flen (rp_w_io w9)).
   pose proof (rpp_raw_open_file (rp_w_io (rp_end_state w9)) false) as O. cbv zeta in O.
   destruct (rp_raw_open (rp_w_io (rp_end_state w9)) false) as [s11 rc11]. cbn [fst] in O. destruct O as (O1 & O2 & _).
-  exists (rp_w_set_io (rp_end_state w9) s11). repeat split; try assumption.
+  exists (rp_w_set_io (rp_end_state w9) s11).
+  split; [exact O1 |]. split; [exact O2 |]. split; [apply rpp_set_io_log |].
   destruct (negb (rc11 =? 0)) eqn:E11; [right; exists rc11; split; [now apply rpp_negb_eqb_true | reflexivity] | left; reflexivity].
 Qed.
 Lemma rpp_end_state_pres : forall w9, rpp_wpres w9 (rp_end_state w9).
 Proof.
-  intros w9. unfold rp_end_state. cbv zeta. eapply rpp_wpres_trans; [| apply rpp_wpres_commit].
+  intros w9. unfold rp_end_state, rp_raw_close. cbv zeta.
+  eapply rpp_wpres_trans; [| apply rpp_wpres_with_raw]. eapply rpp_wpres_trans; [| apply rpp_wpres_commit].
   eapply rpp_wpres_trans; [apply (rpp_wpres_io w9); apply rpp_seek_end_frame |]. fold (rp_end_seek w9).
   destruct (rp_w_inplace (rp_end_seek w9)); [apply rpp_wpres_uninit | apply rpp_wpres_refl].
 Qed.
@@ -384,12 +393,11 @@ Theorem rpp_open_coherent : forall f, rpp_res_coh f (rp_open summ1 summN f).
 Proof.
   intros f. unfold rp_open. pose proof (rpp_scan_cases f) as S.
   destruct (rp_scan f) as [[c rc] | c].
-  - unfold rpp_res_coh, rp_res, rp_res_end. cbn. rewrite S. reflexivity.
+  - destruct S as (S1 & S2). unfold rp_res. apply rpp_res_coh_of. apply rpp_coh_w0; assumption.
   - destruct S as (c3 & _ & (I1 & I2 & _) & E & Hf).
     assert (Hn : rp_flen (rp_io_ c) = rp_len f).
     { pose proof (rpp_rd_chunk_end_frame (rp_io_ c3)) as F. rewrite E in F. cbn [fst] in F. destruct F as (_ & F2 & _). congruence. }
-    assert (C0 : rpp_coh f (rp_w0 c)).
-    { unfold rpp_coh. cbn. rewrite Hf, Hn. split; reflexivity. }
+    assert (C0 : rpp_coh f (rp_w0 c)) by (apply rpp_coh_w0; assumption).
     destruct (fm_tag (wm_ck_hdr (rp_cur (rp_io_ c))) =? JLS_TAG_END).
     + apply rpp_finish_coh. exact C0.
     + apply rpp_repair_leaves.
@@ -400,28 +408,35 @@ Qed.
 End REPAIR.
 
 (* ---------------- the END chunk and the file header of a successful repair ---------------- *)
+Lemma rpp_end_header_ok_r : forall h r, fm_tag h = JLS_TAG_END -> fm_payload_length h = 0 ->
+  let b := fm_encode_chunk_header h ++ r in
+  fm_ch_crc_ok b = true /\ fm_tag (fm_ch_fields b) = JLS_TAG_END /\ fm_payload_length (fm_ch_fields b) = 0.
+Proof.
+  intros h r Ht Hl. cbv zeta.
+  unfold fm_encode_chunk_header, fm_chunk_header_body. rewrite <- app_assoc.
+  set (c := crc32c _).
+  edestruct (fm_ch_fields_app (fm_enc_u64 (fm_item_next h)) (fm_enc_u64 (fm_item_prev h)) (fm_enc_u8 (fm_tag h))
+               (fm_enc_u8 (fm_rsv0 h)) (fm_enc_u16 (fm_chunk_meta h)) (fm_enc_u32 (fm_payload_length h))
+               (fm_enc_u32 (fm_payload_prev_length h)) (fm_enc_u32 c) r) as (Hf & Hb & Hc & Hk);
+    try apply fm_enc_length.
+  unfold fm_ch_crc_ok. rewrite Hb, Hc, Hf. cbn [fm_tag fm_payload_length].
+  unfold fm_enc_u32 at 1. rewrite (fm_dec_enc 4 c) by (subst c; apply fm_crc32c_lt).
+  subst c. rewrite N.eqb_refl. rewrite Ht, Hl. repeat split; reflexivity.
+Qed.
 Lemma rpp_end_header_ok : forall h, fm_tag h = JLS_TAG_END -> fm_payload_length h = 0 ->
   let b := fm_encode_chunk_header h in
   rp_len b = 32 /\ fm_ch_crc_ok b = true /\ fm_tag (fm_ch_fields b) = JLS_TAG_END /\ fm_payload_length (fm_ch_fields b) = 0.
 Proof.
   intros h Ht Hl. cbv zeta.
   split; [unfold rp_len; now rewrite fm_encode_chunk_header_length |].
-  unfold fm_encode_chunk_header, fm_chunk_header_body. rewrite <- (app_nil_r (fm_enc_u32 _)).
-  set (c := crc32c _).
-  edestruct (fm_ch_fields_app (fm_enc_u64 (fm_item_next h)) (fm_enc_u64 (fm_item_prev h)) (fm_enc_u8 (fm_tag h))
-               (fm_enc_u8 (fm_rsv0 h)) (fm_enc_u16 (fm_chunk_meta h)) (fm_enc_u32 (fm_payload_length h))
-               (fm_enc_u32 (fm_payload_prev_length h)) (fm_enc_u32 c) []) as (Hf & Hb & Hc & Hk);
-    try apply fm_enc_length.
-  unfold fm_ch_crc_ok. rewrite Hb, Hc, Hf. cbn [fm_tag fm_payload_length].
-  unfold fm_enc_u32 at 2. rewrite (fm_dec_enc 4 c) by (subst c; apply fm_crc32c_lt).
-  subst c. rewrite N.eqb_refl. rewrite Ht, Hl. repeat split; reflexivity.
+  pose proof (rpp_end_header_ok_r h [] Ht Hl) as H. cbv zeta in H. rewrite app_nil_r in H. exact H.
 Qed.
 
-Lemma rpp_wr_end_close_log : forall r sh gh uh,
+Lemma rpp_wr_end_log : forall r sh gh uh,
   wm_rlog r = [] -> wm_offset r = wm_fpos r -> wm_fault r = false ->
-  exists h fe, wm_rlog (wm_raw_close (wm_b_raw (wm_core_wr_end
-                  {| wm_b_raw := r; wm_b_source_head := sh; wm_b_signal_head := gh; wm_b_ud_head := uh |})))
-               = [WmWrite 0 (wm_file_header_bytes fe); WmWrite (wm_fpos r) (fm_encode_chunk_header h)]
+  exists h, wm_rlog (wm_b_raw (wm_core_wr_end
+                  {| wm_b_raw := r; wm_b_source_head := sh; wm_b_signal_head := gh; wm_b_ud_head := uh |}))
+               = [WmWrite (wm_fpos r) (fm_encode_chunk_header h)]
             /\ fm_tag h = JLS_TAG_END /\ fm_payload_length h = 0.
 Proof.
   intros r sh gh uh Hl Ho Hf.
@@ -435,44 +450,61 @@ Proof.
   assert (V : forall x, wm_hdr_valid (wm_set_hdr x h1) = true).
   { intros x. unfold wm_hdr_valid. cbn [wm_hdr wm_set_hdr]. rewrite T1. reflexivity. }
   rewrite V. cbn [wm_fault wm_set_hdr wm_disk_put wm_bk_fwrite]. rewrite Hf. cbn [N.eqb].
-  exists h1. eexists. split; [| split; [exact T1 | exact L1]].
-  match goal with |- context [if ?b then _ else _] => destruct b end;
-    unfold wm_raw_close, wm_wr_file_header; cbv zeta;
-    match goal with |- context [if ?b then _ else _] => destruct b end; cbn; rewrite Hl; reflexivity.
+  exists h1. split; [| split; [exact T1 | exact L1]].
+  match goal with |- context [if ?b then _ else _] => destruct b end; cbn; rewrite Hl; reflexivity.
 Qed.
 
-(* the file after rp_end_state: the file header rewritten, the END header appended *)
+Lemma rpp_raw_close_file : forall w, rp_flen (rp_w_io w) = rp_len (rp_file (rp_w_io w)) -> 32 <= rp_flen (rp_w_io w) ->
+  rp_file (rp_w_io (rp_raw_close w)) = wm_file_header_bytes (rp_flen (rp_w_io w)) ++ rp_skip 32 (rp_file (rp_w_io w)).
+Proof.
+  intros w Hc H32. unfold rp_raw_close, rp_with_raw, rp_commit.
+  set (r := wm_b_raw (rp_wm_base w 0)). assert (Hl : wm_rlog r = []) by reflexivity.
+  assert (L : wm_rlog (wm_b_raw (wm_b_set_raw (rp_wm_base w 0) (rp_wm_wr_file_header (rp_flen (rp_w_io w)) r)))
+              = [WmWrite 0 (wm_file_header_bytes (rp_flen (rp_w_io w)))]).
+  { unfold rp_wm_wr_file_header. cbv zeta. cbn [wm_b_raw wm_b_set_raw].
+    destruct (wm_fpos r =? 0); reflexivity. }
+  rewrite L. cbn [rp_apply_log fold_right rp_apply fst snd].
+  assert (F32 : rp_len (wm_file_header_bytes (rp_flen (rp_w_io w))) = 32).
+  { unfold wm_file_header_bytes, rp_len. now rewrite fm_encode_file_header_length. }
+  unfold rp_apply_write. cbv zeta. rewrite F32.
+  replace (rp_flen (rp_w_io w) <=? 0) with false by (symmetry; apply N.leb_gt; lia).
+  cbn [fst rp_file rp_w_io rp_c rp_io_]. unfold rp_take. cbn [N.to_nat firstn app]. reflexivity.
+Qed.
+
+(* the file after rp_end_state: the file header rewritten with the new length, the END header appended *)
 Lemma rpp_end_state_file : forall w9, rp_flen (rp_w_io w9) = rp_len (rp_file (rp_w_io w9)) -> 32 <= rp_flen (rp_w_io w9) ->
-  exists h fe, fm_tag h = JLS_TAG_END /\ fm_payload_length h = 0 /\
+  exists h, fm_tag h = JLS_TAG_END /\ fm_payload_length h = 0 /\
     rp_file (rp_w_io (rp_end_state w9)) =
-      wm_file_header_bytes fe ++ rp_skip 32 (rp_file (rp_w_io w9)) ++ fm_encode_chunk_header h.
+      wm_file_header_bytes (rp_flen (rp_w_io w9) + 32) ++ rp_skip 32 (rp_file (rp_w_io w9)) ++ fm_encode_chunk_header h.
 Proof.
   intros w9 Hc H32. unfold rp_end_state. cbv zeta.
   set (w9a := if rp_w_inplace (rp_end_seek w9) then rp_w_set_uninit (rp_end_seek w9) else rp_end_seek w9).
   assert (A1 : rp_w_io w9a = rp_seek_end (rp_w_io w9)) by (unfold w9a; destruct (rp_w_inplace (rp_end_seek w9)); reflexivity).
   assert (A2 : rp_c w9a = rp_rd_set_io (rp_c w9) (rp_seek_end (rp_w_io w9))) by (unfold w9a; destruct (rp_w_inplace (rp_end_seek w9)); reflexivity).
-  unfold rp_wm_base. rewrite A2. cbn [rp_io_ rp_rd_set_io rp_src_head rp_sig_head rp_ud_head].
-  set (r9 := rp_wm_raw _ _).
-  destruct (rpp_wr_end_close_log r9 (rp_src_head (rp_c w9)) (rp_sig_head (rp_c w9)) (rp_ud_head (rp_c w9))) as (h & fe & Hlog & Ht & Hl);
-    try reflexivity.
-  exists h, fe. split; [exact Ht |]. split; [exact Hl |].
-  unfold rp_commit. cbn [wm_b_raw wm_b_set_raw]. rewrite Hlog.
-  assert (P : wm_fpos r9 = rp_flen (rp_w_io w9)) by reflexivity. rewrite P.
-  rewrite A1. cbn [rp_file rp_flen rp_seek_end rp_io_set_r].
-  cbn [rp_apply_log fold_right rp_apply fst snd].
+  set (w10a := rp_commit w9a (wm_core_wr_end (rp_wm_base w9a 0))).
   set (f9 := rp_file (rp_w_io w9)) in *. set (n9 := rp_flen (rp_w_io w9)) in *.
+  assert (W : exists h, fm_tag h = JLS_TAG_END /\ fm_payload_length h = 0 /\
+                        rp_file (rp_w_io w10a) = f9 ++ fm_encode_chunk_header h /\ rp_flen (rp_w_io w10a) = n9 + 32).
+  { unfold w10a, rp_wm_base. rewrite A2. cbn [rp_io_ rp_rd_set_io rp_src_head rp_sig_head rp_ud_head].
+    set (r9 := rp_wm_raw _ _).
+    destruct (rpp_wr_end_log r9 (rp_src_head (rp_c w9)) (rp_sig_head (rp_c w9)) (rp_ud_head (rp_c w9))) as (h & Hlog & Ht & Hl);
+      try reflexivity.
+    exists h. split; [exact Ht |]. split; [exact Hl |].
+    unfold rp_commit. rewrite Hlog.
+    assert (P : wm_fpos r9 = n9) by reflexivity. rewrite P.
+    rewrite A1. cbn [rp_file rp_flen rp_seek_end rp_io_set_r].
+    cbn [rp_apply_log fold_right rp_apply fst snd]. fold f9 n9.
+    destruct (rpp_end_header_ok h Ht Hl) as (B32 & _).
+    assert (W1 : rp_apply_write f9 n9 n9 (fm_encode_chunk_header h) = (f9 ++ fm_encode_chunk_header h, n9 + 32)).
+    { unfold rp_apply_write. cbv zeta. rewrite N.leb_refl, N.sub_diag, B32. reflexivity. }
+    rewrite W1. split; reflexivity. }
+  destruct W as (h & Ht & Hl & Wf & Wn). exists h. split; [exact Ht |]. split; [exact Hl |].
   destruct (rpp_end_header_ok h Ht Hl) as (B32 & _).
-  assert (W1 : rp_apply_write f9 n9 n9 (fm_encode_chunk_header h) = (f9 ++ fm_encode_chunk_header h, n9 + 32)).
-  { unfold rp_apply_write. cbv zeta. rewrite N.leb_refl, N.sub_diag, B32. reflexivity. }
-  rewrite W1. cbn [fst snd].
-  assert (F32 : rp_len (wm_file_header_bytes fe) = 32).
-  { unfold wm_file_header_bytes, rp_len. now rewrite fm_encode_file_header_length. }
-  unfold rp_apply_write. cbv zeta. rewrite F32.
-  replace (n9 + 32 <=? 0) with false by (symmetry; apply N.leb_gt; lia).
-  cbn [fst rp_file]. unfold rp_take. cbn [N.to_nat firstn app].
-  replace (0 + 32) with 32 by lia.
-  rewrite !rpp_skip_eq. rewrite skipn_app.
-  replace (N.to_nat 32 - length f9)%nat with 0%nat by (unfold rp_len in Hc; lia). reflexivity.
+  rewrite rpp_raw_close_file.
+  - rewrite Wf, Wn. f_equal. rewrite !rpp_skip_eq, skipn_app.
+    replace (N.to_nat 32 - length f9)%nat with 0%nat by (unfold rp_len in Hc; lia). reflexivity.
+  - rewrite Wf, Wn, rpp_len_app, B32. lia.
+  - lia.
 Qed.
 
 Section CONVERGE.
@@ -493,15 +525,16 @@ Lemma rpp_repair_end_success : forall w9,
   let r := rp_repair_end w9 in
   rp_rc r = 0 -> 32 <= rp_end_off r -> rp_end_off r mod 8 = 0 -> rp_end_off r + 32 < rp_two63 ->
   rp_end_off r = rp_flen (rp_w_io w9) /\ rp_len (rp_after r) = rp_end_off r + 32 /\ rp_ends_with_end (rp_after r) = true /\
-  exists fe, rp_take 32 (rp_after r) = wm_file_header_bytes fe.
+  rp_take 32 (rp_after r) = wm_file_header_bytes (rp_len (rp_after r)).
 Proof.
   intros w9 Hc. cbv zeta. destruct (rpp_repair_end_eq w9) as (w11 & A & _ & _ & D). cbv zeta in D.
   destruct D as [D | (rc & Hrc & D)]; rewrite D; [| intros H; exfalso; apply Hrc; exact H].
   destruct (rpp_finish_fields w11 true (rp_flen (rp_w_io w9))) as (E1 & E2 & _). rewrite E1, E2, A.
   intros _ H32 H8 H63.
-  destruct (rpp_end_state_file w9 Hc H32) as (h & fe & Ht & Hl & Hfile). rewrite Hfile.
+  destruct (rpp_end_state_file w9 Hc H32) as (h & Ht & Hl & Hfile). rewrite Hfile.
   set (f9 := rp_file (rp_w_io w9)) in *. set (n9 := rp_flen (rp_w_io w9)) in *.
   destruct (rpp_end_header_ok h Ht Hl) as (B32 & Bc & Bt & Bl).
+  set (fe := n9 + 32).
   assert (F32 : rp_len (wm_file_header_bytes fe) = 32).
   { unfold wm_file_header_bytes, rp_len. now rewrite fm_encode_file_header_length. }
   assert (LEN : rp_len (wm_file_header_bytes fe ++ rp_skip 32 f9 ++ fm_encode_chunk_header h) = n9 + 32).
@@ -514,7 +547,7 @@ Proof.
     replace (n9 + 32 <? rp_two63) with true by (symmetry; apply N.ltb_lt; exact H63).
     replace ((n9 + 32) mod 8 =? 0) with true by (symmetry; apply N.eqb_eq; lia).
     reflexivity.
-  - exists fe. unfold rp_take. apply firstn_app_exact. unfold rp_len in F32. lia.
+  - rewrite LEN. fold fe. unfold rp_take. apply firstn_app_exact. unfold rp_len in F32. lia.
 Qed.
 
 (* C19 part 2: after a successful repairing open the file ends with a CRC-valid END chunk header at its very
@@ -526,14 +559,14 @@ Theorem rpp_repair_converges : forall f,
   rp_rc r = 0 -> rp_did r = true ->
   32 <= rp_end_off r -> rp_end_off r mod 8 = 0 -> rp_end_off r + 32 < rp_two63 ->
   rp_len (rp_after r) = rp_end_off r + 32 /\ rp_ends_with_end (rp_after r) = true /\
-  (exists fe, rp_take 32 (rp_after r) = wm_file_header_bytes fe) /\
+  rp_take 32 (rp_after r) = wm_file_header_bytes (rp_len (rp_after r)) /\
   let r2 := rp_open summ1 summN (rp_after r) in
   rp_did r2 = false /\ rp_events r2 = [] /\ rp_after r2 = rp_after r.
 Proof.
   intros f. cbv zeta.
   set (Q := fun r : rp_result => rp_rc r = 0 -> 32 <= rp_end_off r -> rp_end_off r mod 8 = 0 -> rp_end_off r + 32 < rp_two63 ->
               rp_len (rp_after r) = rp_end_off r + 32 /\ rp_ends_with_end (rp_after r) = true /\
-              (exists fe, rp_take 32 (rp_after r) = wm_file_header_bytes fe) /\
+              rp_take 32 (rp_after r) = wm_file_header_bytes (rp_len (rp_after r)) /\
               rp_did (rp_open summ1 summN (rp_after r)) = false /\ rp_events (rp_open summ1 summN (rp_after r)) = [] /\
               rp_after (rp_open summ1 summN (rp_after r)) = rp_after r).
   assert (G : rp_did (rp_open summ1 summN f) = true -> Q (rp_open summ1 summN f)).
@@ -542,7 +575,7 @@ Proof.
     destruct S as (c3 & _ & (I1 & I2 & _) & E & Hf).
     assert (Hn : rp_flen (rp_io_ c) = rp_len f).
     { pose proof (rpp_rd_chunk_end_frame (rp_io_ c3)) as F. rewrite E in F. cbn [fst] in F. destruct F as (_ & F2 & _). congruence. }
-    assert (C0 : rpp_coh f (rp_w0 c)) by (unfold rpp_coh; cbn; rewrite Hf, Hn; split; reflexivity).
+    assert (C0 : rpp_coh f (rp_w0 c)) by (apply rpp_coh_w0; assumption).
     destruct (fm_tag (wm_ck_hdr (rp_cur (rp_io_ c))) =? JLS_TAG_END).
     { intros D. destruct (rpp_finish_fields (rp_w0 c) false 0) as (_ & _ & D'). rewrite D' in D. discriminate D. }
     intros _. apply rpp_repair_leaves.
